@@ -20,6 +20,11 @@ intra-procedural, flow-insensitive def-use pass:
                          from one parent collapse to the same stream -- NOT seeded.
                          (`s.generate_state(n)` and `SeedSequence(s.entropy, spawn_key=s.spawn_key)`
                          keep the whole seed and stay `fromSeedParam`.)
+    fresh                also: a call of one of the package's own classes / functions that take a `seed`
+                         parameter (IsoLineOperator, GaussianOperator, the rankers, the strategies, the
+                         archives, ...) which passes no seed at all, made inside a component that is
+                         itself seeded -- the one inter-procedural fact that is visible without following
+                         the hand-off
     callerOwned path     (kind `escape`) seed material -- a seed, a generator, a function drawing from
                          one -- is stored into a container that may be the caller's own object (a
                          parameter that is not copied first, or an alias of one): components built
@@ -302,6 +307,70 @@ class Analysis:
         self.attrs = {}  # (rel, class name) -> {attr key -> V}
         self.sites = {}
         self.spawns = {}
+        # seeded callables of the package itself: name -> position of the `seed` parameter (self not counted)
+        self.seeded_callables = {}
+        for m in self.modules:
+            for n in m.tree.body:
+                if isinstance(n, (ast.FunctionDef, ast.AsyncFunctionDef)):
+                    pos = self._seed_pos(n, method=False)
+                    if pos is not None:
+                        self.seeded_callables[n.name] = pos
+        for cname in sorted(self.classes):
+            pos = self._class_seed_pos(cname, set())
+            if pos is not None:
+                self.seeded_callables[cname] = pos
+
+    @staticmethod
+    def _seed_pos(fn, method):
+        """(index among positional parameters or None if keyword-only, ) of a parameter called `seed`; None if absent."""
+        a = fn.args
+        pos = [p.arg for p in a.posonlyargs + a.args]
+        if method and pos:
+            pos = pos[1:]
+        if "seed" in pos:
+            return ("pos", pos.index("seed"))
+        if "seed" in [p.arg for p in a.kwonlyargs]:
+            return ("kw", None)
+        return None
+
+    def _class_seed_pos(self, cname, seen):
+        """Where the constructor of class `cname` takes `seed` (its own __init__, else the first base that has one)."""
+        if cname in seen:
+            return None
+        seen.add(cname)
+        for (_, c) in self.classes.get(cname, []):
+            init = next((x for x in c.body if isinstance(x, ast.FunctionDef) and x.name == "__init__"), None)
+            if init is not None:
+                return self._seed_pos(init, method=True)
+            for b in c.bases:
+                bn = dotted(b)
+                if bn:
+                    r = self._class_seed_pos(bn.split(".")[-1], seen)
+                    if r is not None:
+                        return r
+        return None
+
+    def internal_unseeded(self, call):
+        """None, or the name of a seeded callable of the package that this call invokes WITHOUT handing it a seed
+        (no `seed=` keyword, not enough positional arguments, no * / ** arguments that could carry one)."""
+        d = dotted(call.func)
+        if d is None:
+            return None
+        parts = d.split(".")
+        unbound = parts[-1] == "__init__" and len(parts) >= 2  # Base.__init__(self, ...): self is passed explicitly
+        cname = parts[-2] if unbound else parts[-1]
+        if cname not in self.seeded_callables:
+            return None
+        if parts[0] in ("self", "cls") and not unbound and len(parts) > 1:
+            return None  # a method / attribute that happens to share the name
+        how, pos = self.seeded_callables[cname]
+        if any(k.arg == "seed" or k.arg is None for k in call.keywords):
+            return None
+        if any(isinstance(a, ast.Starred) for a in call.args):
+            return None
+        if how == "pos" and len(call.args) > pos + (1 if unbound else 0):
+            return None
+        return cname
 
     # ---- attribute lookup -------------------------------------------------
 
@@ -822,6 +891,19 @@ class Analysis:
         for n in iter_scope(body):
             if isinstance(n, ast.Call):
                 info = self.classify_call(S, n)
+                if info is None:
+                    target = self.internal_unseeded(n)
+                    # only inside a component that is itself seeded (the function takes a seed, or it is a method
+                    # of a class whose constructor does): a helper without any seed to hand on, such as the
+                    # throw-away CVTArchive of the QDax plotting wrapper, has nothing to honour
+                    seeded_scope = bool(S["roots"]) or (cls is not None and cls.name in self.seeded_callables)
+                    if target is not None and seeded_scope:
+                        # the hand-off of the seed between functions is outside the def-use pass, but a seeded
+                        # component of the package that is constructed without any seed is visible from here
+                        self.add_site(mod.rel, n.lineno, n.col_offset, name, "construct",
+                                      f"ribs {target}(...) called without its seed argument",
+                                      V("fresh", note=f"{target} takes `seed` (default None = OS entropy) and is "
+                                                      "given none"))
                 if info is not None:
                     kind, api, v = info
                     self.add_site(mod.rel, n.lineno, n.col_offset, name, kind, api, v)
